@@ -237,6 +237,34 @@ Proof.
 Qed.
 Print Assumptions c16_ipport_bracket.
 
+(* (5b) The whole --listen text (cmdline.py:82-97): comma separated elements,
+        each read by parse_ipport; what client.main receives as its IPv6 /
+        IPv4 listen address is the LAST element of that family (None when
+        the text has none) - whatever --disable-ipv6 says (d). *)
+Theorem c16_listen_dispatch : forall rs items xs d,
+  items <> [] -> Forall (fun a => lacks "," a = true) items ->
+  Forall2 (fun s x => parse_ipport rs s = Ok x) items xs ->
+  listen_dispatch rs (Some (join [","] items)) d =
+  Ok (last_slot is_fam6 xs LNone, last_slot (fun x => negb (is_fam6 x)) xs LNone).
+Proof. exact listen_dispatch_last. Qed.
+Print Assumptions c16_listen_dispatch.
+
+(* ... and, with no hypothesis on the elements: a listen address handed to
+   client.main is an element of the text read by parse_ipport, of the slot's
+   own family - never an address of the other family, never "auto". *)
+Theorem c16_listen_family : forall rs s d r6 r4,
+  nonempty s = true ->
+  listen_dispatch rs (Some s) d = Ok (r6, r4) ->
+  slot_from rs (split_on "," s) true r6 /\ slot_from rs (split_on "," s) false r4.
+Proof. exact listen_dispatch_family. Qed.
+Print Assumptions c16_listen_family.
+
+(* without --listen: IPv4 "auto"; IPv6 "auto" unless --disable-ipv6 *)
+Theorem c16_listen_absent : forall rs d,
+  listen_dispatch rs None d = Ok (if d then LNone else LAuto, LAuto).
+Proof. exact listen_dispatch_absent. Qed.
+Print Assumptions c16_listen_absent.
+
 (* (6) Remote specification [user[:password]@]host: the user is everything
        before the first ':' (it may contain '@'), the password everything
        between that ':' and the LAST '@' (it may contain ':' and '@'; empty
@@ -454,4 +482,13 @@ Example c16_ex_connect_argv :
   connect_argv [B "ssh"%string] (B "host"%string) false (B "CMD"%string) =
   Ok (Some ([B "ssh"%string; B "host"%string; B "CMD"%string], None)) /\
   connect_argv [B "ssh"%string] [] false (B "CMD"%string) = Ok None.
+Proof. vm_compute. repeat split. Qed.
+
+Example c16_ex_listen :
+  listen_dispatch no_names (Some (B "127.0.0.1:0,[::1]:0"%string)) true =
+    Ok (LAddr (B "::1"%string) 0, LAddr (B "127.0.0.1"%string) 0) /\
+  listen_dispatch no_names (Some (B "[::1]:5,10.0.0.1:7,[::2]"%string)) false =
+    Ok (LAddr (B "::2"%string) 0, LAddr (B "10.0.0.1"%string) 7) /\
+  listen_dispatch no_names (Some (B "[::1]:5"%string)) true = Ok (LAddr (B "::1"%string) 5, LNone) /\
+  listen_dispatch no_names None true = Ok (LNone, LAuto).
 Proof. vm_compute. repeat split. Qed.
